@@ -35,6 +35,7 @@ type thread struct {
 	waitFr    *frame
 	held      map[*value]int
 	where     string
+	vc        vclock
 }
 
 type threadKill struct{}
@@ -51,6 +52,7 @@ type threadState struct {
 	killed   bool
 	wg       sync.WaitGroup
 	switches int
+	race     *raceState
 }
 
 func (p *Path) threadsOn() bool { return p.thr != nil }
@@ -60,7 +62,8 @@ func (p *Path) ensureThreads() {
 		return
 	}
 	main := &thread{id: 0, resume: make(chan struct{}, 1), held: p.held}
-	p.thr = &threadState{threads: []*thread{main}, cur: main}
+	main.vc[0] = 1
+	p.thr = &threadState{threads: []*thread{main}, cur: main, race: newRaceState()}
 }
 
 func (p *Path) preemptBound() int {
@@ -74,11 +77,12 @@ func (p *Path) preemptBound() int {
 func (p *Path) spawn(where string, pos token.Pos, fn value, args []value) {
 	p.ensureThreads()
 	ts := p.thr
-	if len(ts.threads) >= 8 {
+	if len(ts.threads) >= maxThreads {
 		panic(engineError{"more than 8 threads on one path at " + where})
 	}
 	t := &thread{id: len(ts.threads), resume: make(chan struct{}, 1), held: map[*value]int{}, where: where}
 	ts.threads = append(ts.threads, t)
+	p.raceOnSpawn(ts.cur, t)
 	ts.wg.Add(1)
 	go func() {
 		defer ts.wg.Done()
@@ -255,6 +259,9 @@ func (p *Path) onGo(fr *frame, instr *ssa.Go) {
 // threads (without any, nothing can be outstanding: legacy inert behaviour).
 func (p *Path) wgAdd(m value, n int) {
 	mp := m.(*value)
+	if n < 0 {
+		p.raceWgDone(mp)
+	}
 	p.wgCount[mp] += n
 	if p.wgCount[mp] < 0 {
 		if p.thr == nil {
@@ -277,6 +284,7 @@ func (p *Path) wgWait(m value) {
 		p.yield()
 		t.waitWG = nil
 	}
+	p.raceWgWaited(mp)
 }
 
 func (ts *threadState) String() string {
